@@ -123,13 +123,24 @@ class Group:
         return "|".join(out)
 
 
+class Ns:
+    """A namespace: its own functions and classes and the namespaces nested in it (any of them may be empty)."""
+
+    def __init__(self, name, fns=None, classes=None, subs=None, wrap_lua=True):
+        self.name = name
+        self.fns = fns or []
+        self.classes = classes or []    # [(class name, [Fn])]
+        self.subs = subs or []
+        self.wrap_lua = wrap_lua
+
+
 class LuaLib:
     def __init__(self, name):
         self.name = name
         self.groups = []
         self.classes = []               # [(class name, [Fn in declaration order])]
         self.free = []                  # Fn in declaration order (global scope)
-        self.ns = None                  # (namespace name, [Fn])
+        self.nss = []                   # top-level namespaces (Ns trees)
         self.nfn = 0
         self.class_attrs = {}           # class name -> extra keys of its YAML entry (format / options)
         self.lib_options = {}           # extra library-level options (e.g. LUA_metadata_template)
@@ -147,14 +158,39 @@ class LuaLib:
             e.update(self.class_attrs.get(cname, {}))
             decls.append(e)
         decls += [{"decl": f.decl()} for f in self.free]
-        if self.ns:
-            decls.append({"decl": "namespace " + self.ns[0], "declarations": [{"decl": f.decl()} for f in self.ns[1]]})
+        def ns_decl(ns):
+            inner = []
+            for cname, fns in ns.classes:
+                e = {"decl": "class " + cname, "declarations": [{"decl": f.decl()} for f in fns]}
+                e.update(self.class_attrs.get(cname, {}))
+                inner.append(e)
+            inner += [{"decl": f.decl()} for f in ns.fns]
+            inner += [ns_decl(x) for x in ns.subs]
+            e = {"decl": "namespace " + ns.name, "declarations": inner}
+            if not ns.wrap_lua:
+                e["options"] = {"wrap_lua": False}
+            return e
+
+        decls += [ns_decl(ns) for ns in self.nss]
         opts = {"wrap_fortran": False, "wrap_c": False, "wrap_python": False, "wrap_lua": True, "debug": True}
         opts.update(self.lib_options)
         return libgen.Lib(self.name, "c++", decls, opts)
 
     def yaml(self):
         return self.lib().yaml()
+
+    def all_classes(self):
+        """Every class, library level first, then the namespaces in pre-order (the order Shroud wraps them in)."""
+        out = list(self.classes)
+
+        def walk(ns):
+            out.extend(ns.classes)
+            for x in ns.subs:
+                walk(x)
+
+        for ns in self.nss:
+            walk(ns)
+        return out
 
     # ------------------------------------------------------------ instrumented implementation
     def header(self):
@@ -212,7 +248,7 @@ class LuaLib:
             o.append("class %s;" % cname)
         for f in self.free:
             o.append("inline " + proto(f) + " " + body(f, "", False))
-        for cname, fns in self.classes:
+        def emit_class(cname, fns):
             o.append("class %s {" % cname)
             o.append("public:")
             o.append("    int id_;")
@@ -227,11 +263,22 @@ class LuaLib:
                 else:
                     o.append("    " + proto(f) + " " + body(f, "    ", True))
             o.append("};")
-        if self.ns:
-            o.append("namespace %s {" % self.ns[0])
-            for f in self.ns[1]:
+
+        for cname, fns in self.classes:
+            emit_class(cname, fns)
+
+        def emit_ns(ns):
+            o.append("namespace %s {" % ns.name)
+            for cname, fns in ns.classes:
+                emit_class(cname, fns)
+            for f in ns.fns:
                 o.append("inline " + proto(f) + " " + body(f, "", False))
+            for x in ns.subs:
+                emit_ns(x)
             o.append("}")
+
+        for ns in self.nss:
+            emit_ns(ns)
         o.append("#endif")
         return "\n".join(o) + "\n"
 
@@ -307,7 +354,7 @@ def gen_lualib(r, name, nfree=None, nclasses=None, with_ns=None, rich=False):
     lib = LuaLib(name)
     nclasses = r.choice([1, 2, 2, 3]) if nclasses is None else nclasses
     allcls = [("Cls%d" % (ci + 1), ci + 1) for ci in range(nclasses)]
-    nfree = r.randrange(3, 7) if nfree is None else nfree
+    nfree = r.choice([0, 3, 4, 5, 6]) if nfree is None else nfree
     names = ["Alpha", "betaFunc", "gamma_x", "DeltaTwo", "eps", "Zeta9", "etaName", "Theta"]
     r.shuffle(names)
     free_groups = []
@@ -380,21 +427,44 @@ def gen_lualib(r, name, nfree=None, nclasses=None, with_ns=None, rich=False):
             fns.append(sf)
             lib.groups.append(Group("sfunc", "method", cname, [sf]))
         lib.classes.append((cname, fns))
-    with_ns = (r.random() < 0.4) if with_ns is None else with_ns
+    # namespaces: a tree whose nodes may hold functions, only classes, only namespaces or nothing at all
+    with_ns = (r.random() < 0.6) if with_ns is None else with_ns
+    counter = {"fn": 0, "cls": 0, "ns": 0}
+
+    def simple_class(scope):
+        counter["cls"] += 1
+        cname = "NCls%d" % counter["cls"]
+        ctors = _gen_overloads(r, lib, "ctor", "ctor", cname, r.choice([1, 2]), maxargs=2)
+        fns = list(ctors)
+        lib.groups.append(Group(cname, "ctor", cname, ctors, scope=scope))
+        if r.random() < 0.7:
+            ms = _gen_overloads(r, lib, "nm%d" % counter["cls"], "method", cname, r.choice([1, 2]), maxargs=3)
+            fns.extend(ms)
+            lib.groups.append(Group(ms[0].name, "method", cname, ms, scope=scope))
+        return (cname, fns)
+
+    def gen_ns(depth, scope):
+        counter["ns"] += 1
+        ns = Ns("ns%d" % counter["ns"])
+        scope = scope + ns.name + "::"
+        what = r.choice(["functions", "functions", "classes", "namespaces", "empty", "mixed"])
+        if what in ("functions", "mixed"):
+            for _ in range(r.randrange(1, 3)):
+                counter["fn"] += 1
+                nm = "inner%d" % counter["fn"]
+                fs = _gen_overloads(r, lib, nm, "free", None, r.choice([1, 2]), objtypes=allcls, maxargs=4)
+                ns.fns.extend(fs)
+                lib.groups.append(Group(nm, "free", None, fs, scope=scope))
+        if what in ("classes", "mixed"):
+            ns.classes.append(simple_class(scope))
+        if depth < 3 and (what in ("namespaces", "mixed") or r.random() < 0.4):
+            for _ in range(r.randrange(1, 3)):
+                ns.subs.append(gen_ns(depth + 1, scope))
+        return ns
+
     if with_ns:
-        nsname = "ns%d" % r.randrange(1, 9)
-        nfs = []
-        for k in range(r.randrange(1, 3)):
-            nm = "inner%d" % k
-            while True:
-                save = lib.nfn
-                fs = _gen_overloads(r, lib, nm, "free", None, r.choice([1, 2]), objtypes=allcls)
-                if fs:
-                    break
-                lib.nfn = save
-            nfs.extend(fs)
-            lib.groups.append(Group(nm, "free", None, fs, scope=nsname + "::"))
-        lib.ns = (nsname, nfs)
+        for _ in range(r.randrange(1, 3)):
+            lib.nss.append(gen_ns(1, ""))
     return lib
 
 
@@ -484,6 +554,24 @@ def fixed_lualib(name="luafix"):
     use = mko("use", "free", None, [[OP("Only", 3)], [OP("Bar", 2), OP("Only", 3), P("int", "0")]], ["int", "void"])
     lib.free = lib.free + use
     lib.groups.append(Group("use", "free", None, use))
+    # namespaces: only namespaces > only a class > functions; nothing at all; switched off with content
+    deepf = mk("deepfn", "free", None, [[P("int"), P("int", "0")]], ["int"])
+    mct = mk("ctor", "ctor", "Mid", [[], [P("double")]], ["Mid", "Mid"])
+    mme = mk("mval", "method", "Mid", [[P("int")]], ["int"])
+    sibf = mk("sibfn", "free", None, [[P("bool")]], ["void"])
+    ghost = mk("ghost", "free", None, [[]], ["int"])
+    ghost2 = mk("ghost2", "free", None, [[P("int")]], ["int"])
+    lib.nss = [
+        Ns("outer", subs=[Ns("mid", classes=[("Mid", mct + mme)], subs=[Ns("hollow", subs=[Ns("deep", fns=deepf)])]),
+                          Ns("sib", fns=sibf)]),
+        Ns("nothing"),
+        Ns("hidden", fns=ghost, subs=[Ns("below", fns=ghost2)], wrap_lua=False),
+    ]
+    lib.groups.append(Group("deepfn", "free", None, deepf, scope="outer::mid::hollow::deep::"))
+    lib.groups.append(Group("Mid", "ctor", "Mid", mct, scope="outer::mid::"))
+    lib.groups.append(Group("mval", "method", "Mid", mme, scope="outer::mid::"))
+    lib.groups.append(Group("sibfn", "free", None, sibf, scope="outer::sib::"))
+    lib.hidden_names = ["ghost", "ghost2"]
     give = mko("give", "free", None, [[OP("Bar", 2)], [OP("Foo", 1), OP("Bar", 2), P("double", "0.0")]], ["void", "double"])
     lib.free = lib.free + give
     lib.groups.append(Group("give", "free", None, give))
